@@ -385,14 +385,14 @@ func (f *FnVC) checkInvariant(li *loopInfo, st *State, names map[string]Val, kin
 	}
 	env := f.invEnv(st, all)
 	for i, inv := range li.spec.Invariants {
-		v, err := f.evalSpec(env, inv.Expr, types.Typ[types.Bool])
-		if err != nil {
-			f.E.specError(inv, err)
-			continue
-		}
 		lbl := inv.Label
 		if lbl == "" {
 			lbl = fmt.Sprintf("loop%d.%d", li.ordinal, i+1)
+		}
+		v, err := f.evalSpec(env, inv.Expr, types.Typ[types.Bool])
+		if err != nil {
+			f.obligeSpecError(kind, lbl, inv, err)
+			continue
 		}
 		f.oblige(kind, lbl, st, v.T, hdr.Instrs[0].Pos(), fmt.Sprintf("loop %d invariant (%s): %s", li.ordinal, kind, inv.Text))
 	}
@@ -458,14 +458,14 @@ func (f *FnVC) atReturn(st *State, rs []Val, ret *ssa.Return, names map[string]V
 		f.bindResults(env, sig, res)
 	}
 	for i, en := range f.Ct.Ensures {
-		v, err := f.evalSpec(env, en.Expr, types.Typ[types.Bool])
-		if err != nil {
-			f.E.specError(en, err)
-			continue
-		}
 		lbl := en.Label
 		if lbl == "" {
 			lbl = fmt.Sprintf("e%d", i+1)
+		}
+		v, err := f.evalSpec(env, en.Expr, types.Typ[types.Bool])
+		if err != nil {
+			f.obligeSpecError("ensures", lbl, en, err)
+			continue
 		}
 		o := f.oblige("ensures", lbl, st, v.T, ret.Pos(), "postcondition: "+en.Text)
 		for j, r := range rs {
